@@ -556,7 +556,11 @@ impl Harness {
                     let mut runner = TestRunner::new(cfg);
                     let strategy = strat();
                     let obs_cell = RefCell::new(&mut obs);
+                    let trace = std::env::var("PV_TRACE").is_ok();
                     let res = runner.run(&strategy, |case| {
+                        if trace {
+                            eprintln!("[trace w{}] {:?}", w, case);
+                        }
                         let mut o = obs_cell.borrow_mut();
                         let o: &mut Obs = &mut **o;
                         match run_one(prop, &case, o) {
